@@ -76,7 +76,81 @@ class C08(PropCheck):
     def nontrivial(self, line, io):
         return "set listen" in line
 
+    # ---- the Lean spec (lean/NrfModel/Spec/Pipe0.lean) evaluated on the implementation's observations
+    @staticmethod
+    def _obs(r):
+        return (f"{r['cfg']} {r['aa']} {r['rxen']} {r['a0']} {r['tx']} {r['ce']} "
+                f"{'1' if 'CE:role-change-with-CE-high' in r.get('viol', '') else '0'}")
+
+    @staticmethod
+    def _spec_op(t):
+        if t[:2] == ["a", "open_rx_pipe"]:
+            return f"open_rx {t[2]} {t[3]}"
+        if t[:2] == ["a", "close_rx_pipe"]:
+            return f"close_rx {t[2]}"
+        if t[:2] == ["a", "open_tx_pipe"]:
+            return f"open_tx {t[2]}"
+        if t[:3] == ["a", "set", "auto_ack"] and t[3] in ("T", "F"):
+            return f"auto_ack {t[3]}"
+        if t[:2] == ["a", "set_auto_ack"] and t[3] != "N":
+            return f"set_auto_ack {t[2]} {t[3]}"
+        if t[:3] == ["a", "set", "listen"]:
+            return f"listen {t[3]}"
+        return "other"
+
+    def spec_lines(self, triples):
+        """one `specc08` line per session; returns [(triple index, line, [op index of each step])]"""
+        skip = len(PREFIX.split(" ; "))
+        out = []
+        for n, (l, io, mo) in enumerate(triples):
+            if not l.startswith(PREFIX):
+                continue
+            names, ops = l.split(" ; "), parse_out(io)
+            if len(ops) < skip or not ops[skip - 1]["radios"]:
+                continue
+            steps, idx = [], []
+            for k in range(skip, min(len(names), len(ops))):
+                t = names[k].split()
+                if t[0] != "a" or not ops[k]["radios"]:
+                    continue
+                res = "exc" if ops[k]["res"].startswith("exc=") else "ok"
+                steps.append(f"{self._spec_op(t)} ~ {res} ~ {self._obs(ops[k]['radios'][0])}")
+                idx.append(k)
+            out.append((n, "specc08 - " + self._obs(ops[skip - 1]["radios"][0]) + " ; " + " ; ".join(steps), idx))
+        return out
+
+    WHAT = {"rx-entry": "entering RX mode: pipe 0 is not on the address the user last opened it with / not closed "
+                        "although the user never opened or has closed it (Spec.RxEntryOk)",
+            "tx-ready": "after open_tx_pipe() in TX mode with auto-ack on pipe 0, pipe 0 is not open on the TX address "
+                        "(Spec.TxReady): ACKs cannot be received",
+            "ce-rule": "CE was moved by a call other than `listen =`, or `listen = v` did not leave CE at v (Spec.CeRule)",
+            "role-changed-with-ce-high": "the role (PRIM_RX) was changed while CE was high",
+            "rx-role-with-ce-low": "radio is in RX mode but CE is low",
+            "ce-high-in-tx-role": "CE is high in the TX role although only calls of the alphabet were made (Spec.CeMatchesRole)",
+            "raised-but-changed-the-radio": "the call raised but changed the radio"}
+
     def judge(self, triples):
+        out = self.judge_py(triples)
+        seen = {f.case for f in out}
+        try:
+            sl = self.spec_lines(triples)
+            answers = run_driver([x[1] for x in sl]) if sl else []
+        except Infra:
+            return out          # driver not available: the Python rendering of the spec alone
+        for (n, line, idx), ans in zip(sl, answers):
+            if ans == "ok":
+                continue
+            l = triples[n][0]
+            if ans.startswith("fail ") and l not in seen:
+                _, k, what = ans.split(" ", 2)
+                k = idx[int(k)]
+                out.append(Finding(l, f"op {k} `{l.split(' ; ')[k]}`: {self.WHAT.get(what, what)}",
+                                   {"op_index": k, "spec": what}))
+            elif not ans.startswith("fail "):
+                raise Infra(f"specc08 rejected its input: {ans}: {line[:300]}")
+        return out
+
+    def judge_py(self, triples):
         out = []
         for l, io, mo in triples:
             if not l.startswith("rf 2 1 new a rf24 0 ; a enter ; " + PEER):
